@@ -206,10 +206,27 @@ Definition byte_placed (pl : list (nat * list byte)) (i : nat) (b : byte) : bool
   existsb (fun p => (fst p <=? i)%nat && (i <? fst p + length (snd p))%nat && (nth (i - fst p) (snd p) 256 =? b)) pl.
 (* a datagram is made of one packet's own bytes only: its length is that of one of the
    packet's writes and every byte sits where that packet's handler put it *)
+(* the same test for every position of d at once, in one pass per placement (byte_placed looks every
+   byte up with nth: quadratic in the datagram length): position i of [placed_mask d (off, bs)] says
+   off <= i < off + length bs and bs[i - off] = d[i] *)
+Fixpoint eqs (a b : list byte) : list bool :=
+  match a, b with
+  | x :: a', y :: b' => (x =? y) :: eqs a' b'
+  | _, _ => []
+  end.
+Definition placed_mask (d : list byte) (p : nat * list byte) : list bool :=
+  repeat false (fst p) ++ eqs (skipn (fst p) d) (snd p).
+Fixpoint or_mask (acc m : list bool) : list bool :=
+  match acc with
+  | [] => []
+  | x :: acc' => match m with [] => acc | y :: m' => (x || y) :: or_mask acc' m' end
+  end.
+Definition all_placed (pl : list (nat * list byte)) (d : list byte) : bool :=
+  forallb (fun b => b) (fold_left or_mask (map (placed_mask d) pl) (repeat false (length d))).
 Definition own_bytes_only (d : list byte) (rx : list byte) (sc : hscript) : bool :=
   existsb (bytes_eqb d) (packet_replies rx sc) ||
   (existsb (fun w => (length w =? length d)%nat) (packet_replies rx sc) &&
-   forallb (fun ib => byte_placed (packet_placed rx sc) (fst ib) (snd ib)) (combine (seq 0 (length d)) d)).
+   all_placed (packet_placed rx sc) d).
 Definition client_packets (addr : N) (ops : list uopN) : list (list byte * hscript) :=
   flat_map (fun o => match o with
                      | URecv _ _ _ _ a rx sc => if a =? addr then [(unrle rx, script_of_n sc)] else []
